@@ -33,6 +33,7 @@ type harnessSpec struct {
 	Bounds      string   `json:"bounds"`
 	Replay      string   `json:"replay"` // kind of extra end-to-end replay
 	NoDiff      bool     `json:"no_diff"`
+	RaceReplay  bool     `json:"race_replay"` // replay natively under the race detector, several attempts
 	ReplayPad   *struct {
 		Param  string `json:"param"`
 		Values []int  `json:"values"`
@@ -277,7 +278,13 @@ func cmdRun(args []string) int {
 	exit := 0
 	var printedKnown = map[string]bool{}
 	for _, rep := range reports {
+		seenV := map[string]bool{}
 		for _, v := range rep.Confirmed {
+			key := v.Clause + compactJSON(v.Model)
+			if seenV[key] {
+				continue
+			}
+			seenV[key] = true
 			path := writeReplay(v)
 			fmt.Printf("VIOLATION property=%s replay=%s\n", v.Property, path)
 			fmt.Printf("  harness=%s clause=%s inputs=%s\n", v.Harness, v.Clause, compactJSON(v.Model))
@@ -506,7 +513,49 @@ func runNative(lr *loadResult, reports []*harnessReport, tier string, seed int64
 		if len(cases) == 0 {
 			continue
 		}
-		outs, err := runNativeCases(lr, pkg, cases, false)
+		var outs map[string]*nativeOutcome
+		var err error
+		raced := map[string]bool{}
+		raceMode := false
+		for _, rep := range reps {
+			if rep.Spec.RaceReplay {
+				raceMode = true
+			}
+		}
+		if raceMode {
+			// counterexamples are replayed under the race detector (several attempts); the
+			// differential vectors run on the ordinary build
+			var raceCases, plain []nativeCase
+			for _, c := range cases {
+				if refs[c.ID].kind == "diff" {
+					plain = append(plain, c)
+				} else {
+					raceCases = append(raceCases, c)
+				}
+			}
+			outs = map[string]*nativeOutcome{}
+			if len(plain) > 0 {
+				o1, e1 := runNativeCases(lr, pkg, plain, false)
+				err = e1
+				for k, v := range o1 {
+					outs[k] = v
+				}
+			}
+			if len(raceCases) > 0 && err == nil {
+				attempts := 8
+				if tier == "thorough" {
+					attempts = 20
+				}
+				o2, r2, e2 := runNativeRace(lr, pkg, raceCases, attempts)
+				err = e2
+				raced = r2
+				for k, v := range o2 {
+					outs[k] = v
+				}
+			}
+		} else {
+			outs, err = runNativeCases(lr, pkg, cases, false)
+		}
 		if err != nil {
 			for _, rep := range reps {
 				rep.Inconclusive = append(rep.Inconclusive, "native run failed: "+strings.ReplaceAll(err.Error(), "\n", " | "))
@@ -520,6 +569,10 @@ func runNative(lr *loadResult, reports []*harnessReport, tier string, seed int64
 			case "violation", "known":
 				r.rep.ReplayRuns++
 				ok := o != nil && contains(o.Failed, r.v.Clause)
+				if !ok && raced[id] && strings.Contains(r.v.Clause, "data-race") {
+					ok = true
+					r.v.Extra = map[string]string{"reproduced_with": "go test -race: DATA RACE reported"}
+				}
 				if !ok {
 					for pid, base := range padOf {
 						if base == id && outs[pid] != nil && contains(outs[pid].Failed, r.v.Clause) {
@@ -682,4 +735,67 @@ func cmdDebug(args []string) int {
 		fmt.Println("violation", x.Clause, compactJSON(x.Model))
 	}
 	return 0
+}
+
+// runNativeRace builds the native test binary of pkgRel with the race detector once and runs every
+// case up to `attempts` times. A case is reproduced when its clause fails natively, or, for the
+// data-race clause, when the race detector reports a race during its run.
+func runNativeRace(lr *loadResult, pkgRel string, cases []nativeCase, attempts int) (map[string]*nativeOutcome, map[string]bool, error) {
+	ov, err := harnessOverlay(lr.pkgDirs, true)
+	if err != nil {
+		return nil, nil, err
+	}
+	tmp, err := os.MkdirTemp("", "vrace-")
+	if err != nil {
+		return nil, nil, err
+	}
+	defer os.RemoveAll(tmp)
+	repl := map[string]string{}
+	i := 0
+	for virt, content := range ov {
+		real := filepath.Join(tmp, fmt.Sprintf("f%d.go", i))
+		i++
+		os.WriteFile(real, content, 0o644)
+		repl[virt] = real
+	}
+	ovJSON, _ := json.Marshal(map[string]any{"Replace": repl})
+	ovFile := filepath.Join(tmp, "overlay.json")
+	os.WriteFile(ovFile, ovJSON, 0o644)
+	bin := filepath.Join(tmp, "native.test")
+	build := exec.Command("go", "test", "-c", "-race", "-vet=off", "-overlay", ovFile, "-modfile="+filepath.Join(lr.scratch, "go.mod"), "-o", bin, "./"+pkgRel)
+	build.Dir = repoDir
+	build.Env = goEnv(lr.scratch)
+	if out, err := build.CombinedOutput(); err != nil {
+		return nil, nil, fmt.Errorf("race build failed: %v %s", err, tail(string(out), 1500))
+	}
+	outs := map[string]*nativeOutcome{}
+	raced := map[string]bool{}
+	for _, c := range cases {
+		for a := 0; a < attempts; a++ {
+			inFile := filepath.Join(tmp, "in.json")
+			outFile := filepath.Join(tmp, "out.json")
+			os.Remove(outFile)
+			b, _ := json.Marshal([]nativeCase{c})
+			os.WriteFile(inFile, b, 0o644)
+			cmd := exec.Command(bin, "-test.run", "^TestVerifNative$", "-test.count=1")
+			cmd.Dir = filepath.Join(repoDir, pkgRel)
+			cmd.Env = append(goEnv(lr.scratch), "VERIF_NATIVE_IN="+inFile, "VERIF_NATIVE_OUT="+outFile, "GORACE=halt_on_error=0")
+			out, _ := cmd.CombinedOutput()
+			if strings.Contains(string(out), "DATA RACE") {
+				raced[c.ID] = true
+			}
+			if ob, err := os.ReadFile(outFile); err == nil {
+				var os_ []*nativeOutcome
+				if json.Unmarshal(ob, &os_) == nil && len(os_) == 1 {
+					if prev := outs[c.ID]; prev == nil || len(os_[0].Failed) > 0 {
+						outs[c.ID] = os_[0]
+					}
+				}
+			}
+			if raced[c.ID] || (outs[c.ID] != nil && len(outs[c.ID].Failed) > 0) {
+				break
+			}
+		}
+	}
+	return outs, raced, nil
 }
